@@ -42,6 +42,12 @@ def region_rule_obligations(rep):
                               {'earlier_rules': [table[i][0] for i in earlier]})
 
 
+def region_language_obligations(rep, prop):
+    from props import region_lang
+    for o in region_lang.obligations(prop):
+        rep.add(o)
+
+
 def _can_start(rx, ch):
     return regexfacts.can_start_with(rx, ch)
 
@@ -57,6 +63,7 @@ def run(rep):
         rep.add(grammar.check_after_terminator(pc, 'C05', k))
     rep.add(grammar.check_terminator(pc, 'C05'))
     region_rule_obligations(rep)
+    region_language_obligations(rep, 'C05')
     sc.lexical_independence(rep, 'C05')
     rep.functions += [grammar.PROCESS, 'sqlparse.engine.statement_splitter.StatementSplitter._reset']
     common.run_bounded(rep, 'C05', rep.tier, rep.seed)
@@ -64,7 +71,8 @@ def run(rep):
         'structural induction over the verification grammar (DESIGN 3.5/4.5): per-production Hoare triples over the '
         'real loop body of StatementSplitter.process compose to every derivation (paper argument)',
         'terminal spellings are tokenised by the real lexer in a blank-delimited context (re semantics trusted)',
-        'string / quoted-name / dollar-quote / comment bodies are single tokens: bounded only (C14 region contract)',
+        'string / quoted-name / comment bodies are single tokens: the region rules as regular languages (O1-O3, z3 regex '
+        'theory; which of several matching prefixes backtracking picks, and dollar-quoted bodies: bounded only)',
         'a keyword token value contains at least one word (lexer fact)']
     rep.trusted += ['re (CPython) for tokenising terminal spellings', 'grammar of DESIGN 4.5 as the induction structure']
     return common.finish(rep)
